@@ -59,6 +59,10 @@ type SimStream struct {
 	Opens, Closes, Writes, Flushes, Reads int
 	// ReaderIdle is true while a Read call is blocked waiting for bytes.
 	ReaderIdle bool
+	// SocketIsOpen: IsOpen waits for a Read that is blocked waiting for bytes, as thrift.TSocket's does.
+	SocketIsOpen  bool
+	isOpenWaiters []chan struct{}
+	siteIsOpen    int
 
 	siteRead, siteWrite, siteFlush, siteClose, siteOpen, siteBlocked int
 }
@@ -78,6 +82,7 @@ func NewSimStream(rc *RunCtx, name string) *SimStream {
 		siteClose:   simrt.HarnessSite("stream.Close"),
 		siteOpen:    simrt.HarnessSite("stream.Open"),
 		siteBlocked: simrt.HarnessSite("stream.blocked-forever"),
+		siteIsOpen:  simrt.HarnessSite("stream.IsOpen-behind-pending-read"),
 	}
 }
 
@@ -129,8 +134,37 @@ func (st *SimStream) Open() error {
 
 func (st *SimStream) IsOpen() bool {
 	st.mu.Lock()
+	if st.SocketIsOpen && st.open && st.ReaderIdle {
+		// like thrift's TSocket: its liveness check goes through the descriptor's read lock, and a Read that is
+		// waiting for bytes holds that lock until bytes arrive or the socket is closed
+		ch := make(chan struct{}, 1)
+		st.isOpenWaiters = append(st.isOpenWaiters, ch)
+		st.mu.Unlock()
+		simrt.Recv(st.siteIsOpen, ch)
+		st.mu.Lock()
+	}
 	defer st.mu.Unlock()
 	return st.open
+}
+
+// SetSocketIsOpen switches the TSocket-like IsOpen on or off; switching it off releases whoever waits in IsOpen.
+func (st *SimStream) SetSocketIsOpen(on bool) {
+	st.mu.Lock()
+	st.SocketIsOpen = on
+	st.mu.Unlock()
+	if !on {
+		st.releaseIsOpenWaiters()
+	}
+}
+
+func (st *SimStream) releaseIsOpenWaiters() {
+	st.mu.Lock()
+	ws := st.isOpenWaiters
+	st.isOpenWaiters = nil
+	st.mu.Unlock()
+	for _, ch := range ws {
+		ch <- struct{}{}
+	}
 }
 
 func (st *SimStream) Close() error {
@@ -234,6 +268,7 @@ func (st *SimStream) Read(p []byte) (int, error) {
 		st.mu.Lock()
 		st.ReaderIdle = false
 		st.mu.Unlock()
+		st.releaseIsOpenWaiters()
 	}
 }
 
